@@ -1,6 +1,7 @@
 (* C16 — property theorems only (proved in C16/Proofs*.v), instantiated with the constants
    re-extracted from the headers on this run (gen/Params_C16.v). *)
 From MV Require Import C16.Model C16.ProofsSeq C16.ProofsSync C16.ProofsAsync C16.ProofsAcct C16.ProofsFair gen.Params_C16.
+From MV Require Import C16.ProofsStatic C16.ProofsFmt C16.ProofsGen C16.ProofsGenHwA C16.ProofsGenHwB C16.ProofsGenHwC C16.ProofsGenSync C16.ProofsGenAsync.
 Local Open Scope Z_scope.
 
 (* side condition on the extracted constant: the buffer has room for one byte and the NUL *)
@@ -25,15 +26,55 @@ Theorem async_accepted_message_same_lines : forall format fixed lg level id text
 Proof. intros. apply async_seq_equals_sync. Qed.
 Print Assumptions async_accepted_message_same_lines.
 
+(* side condition on the level-name table re-extracted from muggle_log_level_to_str: every level of
+   the enum has its own name — non-empty, distinct, different from the name of an unknown level *)
+Theorem c16_level_names_ok : level_names_ok_b code_fmtcfg code_level_values = true.
+Proof. vm_compute. reflexivity. Qed.
+Print Assumptions c16_level_names_ok.
+
 (* The repaired handlers emit the formatted line cut at the fixed maximum: the line itself when
-   it fits in LIMIT-1 bytes, else its first LIMIT-2 bytes and a newline ... *)
-Theorem log_line_is_truncated_format : forall line,
-  hw_out (handler_write true code_limit line) = map Init (cut code_limit line) /\
-  (length (cut code_limit line) <= code_limit - 1)%nat.
-Proof.
-  intros line. split; [apply handler_write_fixed_out | apply cut_length]; exact c16_limit_ok.
-Qed.
+   it fits in LIMIT-1 bytes, else its first LIMIT-2 bytes and a newline — for every formatter
+   (first part).  For the two built-in formatters the formatted line IS the layout of log_fmt.c:
+   level name (table re-extracted from log_level.c) | [date T time . milliseconds |] file : line
+   [| function | thread id]  " - " payload newline, with the source location, clock reading and
+   thread id of the call (second and third part); code_fmtcfg, gen_fmt_*_matches_model and
+   gen_level_index_matches_model tie names, field order, separators and conversions to the C text. *)
+Theorem log_line_is_truncated_format :
+  (forall line,
+     hw_out (handler_write true code_limit line) = map Init (cut code_limit line) /\
+     (length (cut code_limit line) <= code_limit - 1)%nat) /\
+  (forall src h m,
+     hw_out (handler_line (builtin_format code_fmtcfg src) code_limit true h m) =
+     map Init (cut code_limit (builtin_format code_fmtcfg src (h_fmt h) m))) /\
+  (forall src m,
+     let s := src (m_id m) in
+     let t := gmtime (ms_sec s) in
+     builtin_format code_fmtcfg src 0 m =
+     level_name code_fmtcfg (m_level m) ++ [124%N] ++ ms_file s ++ [58%N] ++ dec_pad 0 (ms_line s) ++ [32; 45; 32]%N ++
+     m_payload m ++ [nl] /\
+     builtin_format code_fmtcfg src 1 m =
+     level_name code_fmtcfg (m_level m) ++ [124%N] ++
+     dec_pad 0 (tm_year t + 1900) ++ [45%N] ++ dec_pad 2 (tm_mon t + 1) ++ [45%N] ++ dec_pad 2 (tm_mday t) ++ [84%N] ++
+     dec_pad 2 (tm_hour t) ++ [58%N] ++ dec_pad 2 (tm_min t) ++ [58%N] ++ dec_pad 2 (tm_sec t) ++ [46%N] ++
+     dec_pad 3 (ms_nsec s / 1000000) ++ [124%N] ++
+     ms_file s ++ [58%N] ++ dec_pad 0 (ms_line s) ++ [124%N] ++ ms_func s ++ [124%N] ++ dec_pad 0 (ms_tid s) ++
+     [32; 45; 32]%N ++ m_payload m ++ [nl]).
+Proof. exact (line_is_truncated_format code_limit code_fmtcfg c16_limit_ok). Qed.
 Print Assumptions log_line_is_truncated_format.
+
+(* a line too long for the buffer keeps its whole prefix (whenever the prefix is shorter than LIMIT-2)
+   and still ends with the newline: what is cut is the payload *)
+Theorem log_long_line_keeps_prefix : forall p rest,
+  (code_limit <= length (p ++ rest))%nat -> (length p <= code_limit - 2)%nat ->
+  exists mid, cut code_limit (p ++ rest) = p ++ mid ++ [nl] /\ length (p ++ mid ++ [nl]) = (code_limit - 1)%nat.
+Proof. exact (fun p rest => cut_keeps_prefix code_limit p rest c16_limit_ok). Qed.
+Print Assumptions log_long_line_keeps_prefix.
+
+(* the decimal conversions of the formatters render the number: digits only, value exact, never empty *)
+Theorem log_decimal_rendering_exact : forall n, 0 <= n < 10 ^ 24 ->
+  Forall is_digit (dec_u n) /\ dval (dec_u n) = n /\ dec_u n <> [].
+Proof. exact dec_u_spec. Qed.
+Print Assumptions log_decimal_rendering_exact.
 
 (* ... and every buffer index read or written is below LIMIT, every emitted byte initialised. *)
 Theorem log_no_oob : forall line,
@@ -284,3 +325,168 @@ Proof.
   - exact (stale_before_and_after code_levels eq_refl eq_refl).
 Qed.
 Print Assumptions handler_level_filter_stale_before_repair.
+
+(* ------------------------------------------------------------------------------------------ *)
+(* Second tie (DESIGN.md 4.4): what lib/props/c16_slice.py re-translated from the C text of
+   muggle/c/log on THIS run (gen/Params_C16.v, the gen_ definitions) equals the model.  Proved in C16/ProofsGen.v by
+   shape-independent decision tactics; a construct the slicer cannot translate leaves the gen_
+   definition out, which breaks these obligations. *)
+
+(* muggle_log_handler_should_write(handler, level) is the model's level test: level >= handler->level *)
+Theorem gen_should_write_matches_model : forall h level, gen_should_write (h_level h) level = should_write h level.
+Proof. exact gen_should_write_eq. Qed.
+Print Assumptions gen_should_write_matches_model.
+
+(* muggle_log_level_to_str: index of the name = level >> MUGGLE_LOG_LEVEL_OFFSET when inside the table *)
+Theorem gen_level_index_matches_model : forall lv, gen_level_index lv = level_index code_fmtcfg lv.
+Proof. exact gen_level_index_eq. Qed.
+Print Assumptions gen_level_index_matches_model.
+
+(* the printf layout of muggle_log_fmt_simple / _complicated (literal text, order and source of every %s,
+   width / zero flag / signedness and integer argument of every numeric conversion), rendered by the
+   model's printf interpreter, is the model's formatter — for every message whose line, thread id and
+   nanoseconds are in the range of their C types *)
+Theorem gen_fmt_simple_matches_model : forall e, fenv_ok e ->
+  render code_fmtcfg e gen_fmt_simple = fmt_simple code_fmtcfg e.
+Proof. exact gen_fmt_simple_eq. Qed.
+Print Assumptions gen_fmt_simple_matches_model.
+
+Theorem gen_fmt_complicated_matches_model : forall e, fenv_ok e ->
+  render code_fmtcfg e gen_fmt_complicated = fmt_complicated code_fmtcfg e.
+Proof. exact gen_fmt_complicated_eq. Qed.
+Print Assumptions gen_fmt_complicated_matches_model.
+
+(* the formatters installed by the library's own entry points muggle_log_simple_init / muggle_log_complicated_init
+   (private to log.c): level|seconds.nanoseconds(9 digits)|file:line|function|thread id - payload, and a copy of
+   the complicated layout *)
+Theorem gen_fmt_init_simple_matches_model : forall e, fenv_ok e ->
+  render code_fmtcfg e gen_fmt_init_simple = fmt_init_simple code_fmtcfg e.
+Proof. exact gen_fmt_init_simple_eq. Qed.
+Print Assumptions gen_fmt_init_simple_matches_model.
+
+Theorem gen_fmt_init_complicated_matches_model : forall e, fenv_ok e ->
+  render code_fmtcfg e gen_fmt_init_complicated = fmt_complicated code_fmtcfg e.
+Proof. exact gen_fmt_init_complicated_eq. Qed.
+Print Assumptions gen_fmt_init_complicated_matches_model.
+
+Theorem gen_fmt_init_ret_matches_model : forall r o,
+  gen_fmt_init_simple_ret r o = r /\ gen_fmt_init_complicated_ret r o = r.
+Proof. exact gen_fmt_init_ret_eq. Qed.
+Print Assumptions gen_fmt_init_ret_matches_model.
+
+(* both formatters return what snprintf(buf, bufsize, ...) returned (the length it wanted) *)
+Theorem gen_fmt_ret_matches_model : forall r o, gen_fmt_simple_ret r o = r /\ gen_fmt_complicated_ret r o = r.
+Proof. exact gen_fmt_ret_eq. Qed.
+Print Assumptions gen_fmt_ret_matches_model.
+
+(* The write function of every built-in handler (hw_spec, C16/ProofsGen.v): no formatter -> -1; the
+   formatter gets the whole LIMIT-byte buffer; negative result -> -2, nothing written; otherwise the
+   count handed to fwrite is clamp_count LIMIT r (r if r < LIMIT, else LIMIT-1), the only store into the
+   buffer is the newline at LIMIT-2 exactly when r >= LIMIT (clamp_store), and the line is written iff
+   the handler has a stream. *)
+Theorem gen_file_write_matches_model : forall s, hw_dom s ->
+  hw_spec (Z.of_nat code_limit) s (gen_file_write s) (negb (io_fp_ok s =? 0)).
+Proof. exact gen_file_write_eq. Qed.
+Print Assumptions gen_file_write_matches_model.
+
+Theorem gen_console_write_matches_model : forall s, hw_dom s ->
+  hw_spec (Z.of_nat code_limit) s (gen_console_write s) true.
+Proof. exact gen_console_write_eq. Qed.
+Print Assumptions gen_console_write_matches_model.
+
+(* ... size-rotating handler: the bytes written are added to the offset and the rotation happens after the
+   write, iff offset + written >= max_bytes (size_rot_after) *)
+Theorem gen_rotate_write_matches_model : forall s, hw_dom s ->
+  hw_spec (Z.of_nat code_limit) s (gen_rotate_write s) (negb (io_fp_ok s =? 0)) /\
+  rot_spec_size (Z.of_nat code_limit) s (gen_rotate_write s).
+Proof. exact gen_rotate_write_eq. Qed.
+Print Assumptions gen_rotate_write_matches_model.
+
+(* ... time-rotating handler: detect / rotate come before the write, which goes to the stream as it is
+   after the rotation *)
+Theorem gen_time_rot_write_matches_model : forall s, hw_dom s ->
+  hw_spec (Z.of_nat code_limit) s (gen_time_rot_write s) (trot_wrote s) /\ rot_spec_time s (gen_time_rot_write s).
+Proof. exact gen_time_rot_write_eq. Qed.
+Print Assumptions gen_time_rot_write_matches_model.
+
+(* clamp_count / clamp_store are the model's handler_write: same count, same single store *)
+Theorem clamp_content_is_handler_write : forall line,
+  Z.of_nat (hw_ret (handler_write true code_limit line)) = clamp_count (Z.of_nat code_limit) (Z.of_nat (length line)) /\
+  hw_writes (handler_write true code_limit line) =
+  snprintf_writes code_limit line ++
+  match clamp_store (Z.of_nat code_limit) (Z.of_nat (length line)) with Some (i, _) => [Z.to_nat i] | None => [] end.
+Proof. exact (fun line => conj (model_clamp_count code_limit line c16_limit_ok)
+                               (proj1 (model_clamp_store code_limit line c16_limit_ok))). Qed.
+Print Assumptions clamp_content_is_handler_write.
+
+(* The log functions, for every logger with at most MUGGLE_LOGGER_MAX_HANDLER handlers (all that add_handler
+   builds: built_within_max) and every level: the loop over the handlers followed by the early-out is the
+   model's pre-filter (some attached handler's should_write); the message gets the level of the call;
+   vsnprintf is given LIMIT and the payload buffer is at least that long. *)
+Theorem gen_sync_log_matches_model : forall lg level s,
+  (length (lg_handlers lg) <= lv_max_handler code_levels)%nat -> lg_dom lg level s ->
+  sync_log_spec (Z.of_nat code_limit) (prefilter true lg level) level s (gen_sync_log s).
+Proof. exact gen_sync_log_eq. Qed.
+Print Assumptions gen_sync_log_matches_model.
+
+(* ... async: queued iff the pre-filter passes and both allocations succeed (the case in which async_log_seq
+   hands the message to the writer thread); the payload buffer is allocated with at least the size given to
+   vsnprintf; one block is released when the payload allocation fails, two when the channel is full *)
+Theorem gen_async_log_matches_model : forall lg level s,
+  (length (lg_handlers lg) <= lv_max_handler code_levels)%nat -> lg_dom lg level s ->
+  async_log_spec (Z.of_nat code_limit) (prefilter true lg level) level s (gen_async_log s).
+Proof. exact gen_async_log_eq. Qed.
+Print Assumptions gen_async_log_matches_model.
+
+Theorem gen_domain_covers_built_loggers : forall hs,
+  (length (lg_handlers (built code_levels hs)) <= lv_max_handler code_levels)%nat.
+Proof. exact (built_within_max code_levels). Qed.
+Print Assumptions gen_domain_covers_built_loggers.
+
+(* ------------------------------------------------------------------------------------------ *)
+(* No free parameters in the interleaving statements (C16/ProofsStatic.v).  The scenarios of the sync /
+   async interleaving models carry a threshold (sc_lowest / as_lowest) and a usable capacity (as_usable);
+   tied to the handlers and to the requested capacity they are the code's pre-filter and the channel's
+   rounding. *)
+
+(* the early-out `lowest > level` of the interleaving models, with lowest = the least handler level (2^31 when
+   no handler is attached), is the code's pre-filter "no attached handler accepts the level" *)
+Theorem handler_level_threshold_is_prefilter : forall hs level, level < level_top ->
+  (static_lowest hs >? level) = negb (existsb (fun h => should_write h level) hs).
+Proof. exact static_threshold_is_prefilter. Qed.
+Print Assumptions handler_level_threshold_is_prefilter.
+
+(* log_per_thread_order without the free threshold: thread t's lines in handler i's stream are exactly its
+   calls at or above handler i's level, once each, in call order; all of them once the thread has finished *)
+Theorem log_per_thread_order_tied : forall Sc sched t i, sc_tied Sc ->
+  let s := exec ssys (sstep Sc) sinit sched in
+  firsts_of t (s_out s i) =
+  filter (fun k => acc_h (sc_handlers Sc) i (sc_level Sc t k)) (seq 0 (progress (s_thr s t) i)) /\
+  (s_pc (s_thr s t) = SDone ->
+   firsts_of t (s_out s i) = filter (fun k => acc_h (sc_handlers Sc) i (sc_level Sc t k)) (seq 0 (sc_msgs Sc))).
+Proof. exact per_thread_order_tied. Qed.
+Print Assumptions log_per_thread_order_tied.
+
+(* async logger: a call goes on to the allocation and the queue iff some attached handler accepts its level *)
+Theorem async_call_passes_iff_prefilter_tied : forall fixed A s t, as_tied A ->
+  p_pc (a_thr s t) = PCall ->
+  let level := as_level A t (p_k (a_thr s t)) in
+  match pstep fixed A s t with
+  | Some (s', _) =>
+    p_pc (a_thr s' t) = PMallocMsg <-> existsb (fun h => should_write h level) (as_handlers A) = true
+  | None => False
+  end.
+Proof. exact async_call_passes_iff_prefilter. Qed.
+Print Assumptions async_call_passes_iff_prefilter_tied.
+
+(* the usable capacity of the async logger's channel: (least power of two >= requested capacity) - 2;
+   the known class async-capacity-unusable (usable = 0) is exactly "requested capacity <= 2" *)
+Theorem async_usable_capacity_spec : forall c, (c <= cap_bound)%nat ->
+  exists k, usable_of c = (2 ^ k - 2)%nat /\ (c <= 2 ^ k)%nat /\ (k = 0 \/ 2 ^ (k - 1) < c)%nat.
+Proof. exact usable_of_spec. Qed.
+Print Assumptions async_usable_capacity_spec.
+
+Theorem async_known_class_is_capacity_le_2 : forall c, (c <= cap_bound)%nat ->
+  (usable_of c = 0%nat <-> (c <= 2)%nat).
+Proof. exact unusable_iff_capacity_le_2. Qed.
+Print Assumptions async_known_class_is_capacity_le_2.
